@@ -357,6 +357,8 @@ Selected == CASE IOEnv.CORPUS = "C01" -> CorpusC01(0)
               [] IOEnv.CORPUS = "STYLES2" -> Styles2(0)
               [] IOEnv.CORPUS = "STYLES3" -> Styles3(0)
               [] IOEnv.CORPUS = "DECOR" -> {[toks |-> d] : d \in DecorLines}
+              [] IOEnv.CORPUS = "FILESIZES" -> {[n |-> k] : k \in {0, 1, 2, 3, 4095, 4096, 4097, 8191, 8192, 8193, 12288} \cup (4056..4136) \cup (8172..8212)}
+              [] IOEnv.CORPUS = "BINOFFSETS" -> {[n |-> k] : k \in {0, 1, 4095, 4096, 6000, 6019, 6020, 6021, 12021}}
               [] OTHER -> {}
 ASSUME ndJsonSerialize(IOEnv.OUT, SetToSeq(Selected))
 VARIABLE x
